@@ -29,3 +29,44 @@ pub fn crc64avro(data: &[u8]) -> u64 {
     for b in data { fp = (fp >> 8) ^ table[((fp ^ *b as u64) & 0xff) as usize]; }
     fp
 }
+
+/// Independent parser of the object container file layout, written from the specification ("Object Container Files"):
+/// magic "Obj" 1, file metadata (a map<bytes>, any number of blocks, negative counts carry a byte size), 16-byte sync marker,
+/// then data blocks: count (long), byte size (long), that many bytes, the marker again. Nothing of the library is used.
+pub struct ParsedContainer { pub meta: Vec<(String, Vec<u8>)>, pub marker: [u8; 16], pub blocks: Vec<(i64, Vec<u8>)> }
+fn read_long(b: &[u8], pos: &mut usize) -> Result<i64, String> {
+    match vparse(&b[*pos..]) { VParse::Done(v, k) => { *pos += k; Ok(unzigzag(v)) }, _ => Err(format!("bad varint at offset {}", *pos)) }
+}
+fn read_bytes<'a>(b: &'a [u8], pos: &mut usize) -> Result<&'a [u8], String> {
+    let n = read_long(b, pos)?;
+    if n < 0 || *pos + n as usize > b.len() { return Err(format!("bad length {n} at offset {}", *pos)); }
+    let s = &b[*pos..*pos + n as usize]; *pos += n as usize; Ok(s)
+}
+pub fn parse_container(b: &[u8]) -> Result<ParsedContainer, String> {
+    if b.len() < 4 || &b[..4] != b"Obj\x01" { return Err("magic".into()); }
+    let mut pos = 4;
+    let mut meta = Vec::new();
+    loop {
+        let mut n = read_long(b, &mut pos)?;
+        if n == 0 { break; }
+        if n < 0 { n = -n; let _size = read_long(b, &mut pos)?; }
+        for _ in 0..n {
+            let k = String::from_utf8(read_bytes(b, &mut pos)?.to_vec()).map_err(|e| e.to_string())?;
+            let v = read_bytes(b, &mut pos)?.to_vec();
+            meta.push((k, v));
+        }
+    }
+    if pos + 16 > b.len() { return Err("header marker truncated".into()); }
+    let mut marker = [0u8; 16]; marker.copy_from_slice(&b[pos..pos + 16]); pos += 16;
+    let mut blocks = Vec::new();
+    while pos < b.len() {
+        let count = read_long(b, &mut pos)?;
+        let size = read_long(b, &mut pos)?;
+        if count < 0 || size < 0 || pos + size as usize + 16 > b.len() { return Err(format!("block with count {count}, size {size} does not fit at offset {pos}")); }
+        let payload = b[pos..pos + size as usize].to_vec(); pos += size as usize;
+        if b[pos..pos + 16] != marker { return Err(format!("block marker at offset {pos} differs from the header's")); }
+        pos += 16;
+        blocks.push((count, payload));
+    }
+    Ok(ParsedContainer { meta, marker, blocks })
+}
